@@ -94,20 +94,49 @@ PROPS = {
     "C03": dict(
         level="other",
         bounded=_both(_ops("C03"), _mod("pure"), _mod("mcsz3")),
-        trusted=TB + ["TB-z3", "TB-time"],
-        assumed=["contract of SystemWZ3._rec_inference / get_all_xi_i (Wrec over minimal correction sets) - bounded only", "L3: Wrec = preferred-structure definition"],
-        explanation="Engine P proves the z3 back-end's _inference (query translation, optimizer set-up, top index, result plumbing) "
-        "against the ASSUMED contract of the correction-set recursion; the recursion itself, the rc2 back-end and the link to the "
-        "preferred-structure definition are decided by the bounded oracle comparison only (both back-ends).",
+        lemmas=["CoveredUpTo.snoc", "MCS.bridge", "MCS.bridge2", "mem.snoc.Int", "mem.nil.Int"],
+        trusted=TB + ["TB-z3", "TB-time", "TB-sat"],
+        assumed=[
+            "RC2: RC2(wcnf).compute() returns None iff no world satisfies the hard clauses, otherwise a model of them (pysat, trusted)",
+            "GVC: get_violated_conditional(model, rc2.cost, ignore) = the not-ignored keys falsified by the model's world (bounded: module pure)",
+            "BLOCK: the clauses of exclude_violated(v), added together, remove exactly the worlds falsifying every conditional of v (bounded: module pure)",
+            "Inv_es: the clause lists of every base key and of the query denote ver / fal / nf of the conditionals (C15; bounded: module c15)",
+            "termination of the enumeration loops is not proved",
+            "get_all_xi_i (z3 back-end): the Optimize-based enumeration returns the inclusion-minimal falsified sets (bounded: module mcsz3)",
+            "L3: the recursion over minimal correction sets (WREC) decides the preferred-structure definition of System W (Komo/Beierle 2022)",
+            LSTOP,
+            LREST,
+        ],
+        explanation="Engine P proves both back-ends from the real source against the recursion WREC over minimal falsified sets: "
+        "SystemWZ3._preprocess_belief_base / _inference / _rec_inference (z3 Optimize ghost model) and SystemW._preprocess_belief_base / "
+        "_inference / _rec_inference at key level (WCNF ghost model: which clause sets become hard for which tie, subset test, "
+        "exists/forall over candidates, base case, feasibility constraints of the extended mode), plus the MaxSAT enumeration they call: "
+        "remove_supersets (result = the inclusion-minimal sets, each once) and the loop of OptimizerRC2.minimal_correction_subsets, from "
+        "which lemmas MCS.bridge / MCS.bridge2 derive the interface contract the operators use. Assumed: pysat's RC2, two helpers "
+        "(bounded), the CNFs (C15), and the link WREC <-> preferred structure. Engine B compares InferenceManager with a brute-force "
+        "oracle written from the property wording for both back-ends.",
     ),
     "C04": dict(
         level="other",
         bounded=_both(_ops("C04"), _mod("lexbias"), _mod("pure"), _mod("mcsz3")),
-        trusted=TB + ["TB-z3", "TB-time"],
-        assumed=["contract of LexInfZ3._rec_inference (Lspec) - bounded only", "L4"],
-        explanation="Engine P proves LexInfZ3._inference against the ASSUMED contract of the recursion; the recursion (exists/forall over "
-        "minimum-cardinality sets), the rc2 back-end and the link to the lexicographic definition are decided by the bounded oracle "
-        "comparison, including a generator biased to layers with several minimum-cardinality sets.",
+        lemmas=["CoveredUpTo.snoc", "MCS.bridge", "MCS.bridge2", "mem.snoc.Int", "mem.nil.Int"],
+        trusted=TB + ["TB-z3", "TB-time", "TB-sat"],
+        assumed=[
+            "RC2: RC2(wcnf).compute() returns None iff no world satisfies the hard clauses, otherwise a model of them (pysat, trusted)",
+            "GVC: get_violated_conditional(model, rc2.cost, ignore) = the not-ignored keys falsified by the model's world (bounded: module pure)",
+            "BLOCK: the clauses of exclude_violated(v), added together, remove exactly the worlds falsifying every conditional of v (bounded: module pure)",
+            "Inv_es: the clause lists of every base key and of the query denote ver / fal / nf of the conditionals (C15; bounded: module c15)",
+            "termination of the enumeration loops is not proved",
+            "get_all_xi_i (z3 back-end) as for C03",
+            "L4: the recursion over minimum-cardinality correction sets (LREC: exists a verifying candidate that beats all falsifying ones) decides the lexicographic definition (Haldimann/Beierle 2022)",
+            LSTOP,
+            LREST,
+        ],
+        explanation="Engine P proves both back-ends from the real source against the recursion LREC: LexInfZ3 and LexInf "
+        "_preprocess_belief_base / _inference / _rec_inference (cardinality comparison, exists/forall over the minimum-cardinality "
+        "candidates, tie handling, base case, extended mode), plus remove_supersets and the loop of "
+        "OptimizerRC2.minimal_correction_subsets (see C03). Engine B compares with the oracle, including a generator biased to layers "
+        "with several minimum-cardinality sets.",
     ),
     "C05": dict(
         level="other",
@@ -181,10 +210,17 @@ PROPS = {
     "C11": dict(
         level="other",
         bounded=_both(_usable_only(_mod("rel", "run_c11")), _mod("pure"), _mod("mcsz3"), _mod("extra", "run_c11x")),
-        trusted=TB + ["TB-z3", "TB-time", "TB-sat (assumed for every engine name)"],
-        assumed=[],
-        explanation="Engine P proves the back-end dispatch (create_inference_instance, create_optimizer) and the z3 back-ends' "
-        "_inference; agreement across all usable engines is checked end-to-end (bounded).",
+        lemmas=["CoveredUpTo.snoc", "MCS.bridge", "MCS.bridge2"],
+        trusted=TB + ["TB-z3", "TB-time", "TB-sat (RC2 assumed correct for every engine name)"],
+        assumed=[
+            "RC2 / GVC / BLOCK (see C03): the MaxSAT layer below minimal_correction_subsets",
+            "get_all_xi_i (z3 back-end) returns the same family of minimal falsified sets (bounded: module mcsz3)",
+            "WREC / LREC are the same specification for both back-ends: both are proved against it, which is what makes the answers agree",
+        ],
+        explanation="Engine P proves the back-end dispatch (create_inference_instance, create_optimizer) and proves BOTH back-ends of "
+        "System W and lexicographic inference against the same recursion specifications (z3: world level, rc2: key level), plus "
+        "remove_supersets and the enumeration loop of OptimizerRC2.minimal_correction_subsets; the engine name only reaches RC2 "
+        "(abstracted). Agreement across all usable engines is checked end to end (bounded); two pysat engine failures are known findings.",
     ),
     "C12": dict(
         level="other",
@@ -217,10 +253,17 @@ PROPS = {
     "C15": dict(
         level="other",
         bounded=_both(_mod("c15"), _mod("pure")),
+        lemmas=["CoveredUpTo.snoc", "MCS.bridge", "MCS.bridge2"],
         trusted=["TB-tac", "TB-sat", "TB-py"],
-        assumed=[],
-        explanation="Engine P proves Conditional(_z3).make_* (the formulas handed to the Tseitin tactic); the integer CNFs and the "
-        "correction-set enumeration are compared with truth tables / brute force (bounded).",
+        assumed=[
+            "the Tseitin tactic of z3 and goal2intcnf produce clause lists denoting the formula (bounded: truth tables in module c15)",
+            "RC2 / GVC / BLOCK (see C03)",
+        ],
+        explanation="Engine P proves Conditional(_z3).make_* (the formulas handed to the Tseitin tactic), remove_supersets (result = "
+        "the inclusion-minimal sets, each once, as duplicate-free lists) and the enumeration loop of "
+        "OptimizerRC2.minimal_correction_subsets (every recorded set is the violated set of a world, every world violates all of some "
+        "recorded set; lemmas derive that the result is exactly the family of minimal correction sets); the integer CNFs and the two "
+        "helpers below the loop are compared with truth tables / brute force (bounded).",
     ),
     "C16": dict(
         level="other",
